@@ -1212,7 +1212,7 @@ pub fn gen_case(rng: &mut Rng, kind: &str, o: &GenOpts) -> ConcCase {
     let mut programs: Vec<Vec<SOp>> = vec![Vec::new(); n];
     let mut directed = false;
     let cfg;
-    let small_orders = [0usize, 0, 0, 3, 5, 6, 7, 8];
+    let small_orders = [0usize, 0, 0, 0, 1, 2, 3, 4, 5, 6, 7, 7, 8, 8];
     match kind {
         // same bitfield: single row CAS vs multi row CAS windows
         "K1" => {
@@ -1253,11 +1253,21 @@ pub fn gen_case(rng: &mut Rng, kind: &str, o: &GenOpts) -> ConcCase {
                 for _ in 0..rng.range(1, 4) {
                     let (class, slot) = gen_class_slot(rng, &cfg, same_slot);
                     if rng.chance(3, 4) {
+                        let order = *rng.pick(&small_orders);
+                        // one in four: a targeted request, close to the start of the range
+                        // (where the untargeted ones of the other threads land)
+                        let target = if rng.chance(1, 4) {
+                            let blocks = (cfg.frames >> order).max(1);
+                            let near = if rng.chance(1, 2) { 8 } else { blocks };
+                            Some(rng.below(blocks.min(near)) << order)
+                        } else {
+                            None
+                        };
                         p.push(SOp::Get {
-                            order: *rng.pick(&small_orders),
+                            order,
                             class,
                             slot,
-                            target: None,
+                            target,
                         });
                     } else {
                         p.push(SOp::PutHeld {
